@@ -3,7 +3,7 @@ NEXT MCNext
 CONSTANTS
   Keys <- MCKeys
   HandlerIds = {1, 2}
-  CTypes <- MCCTypes4
+  CTypes <- MCCTypes
   Defaults <- MCDefaults
   NoRaiseCalls <- MCNoRaise
   MaxObjs = 2
@@ -11,11 +11,12 @@ CONSTANTS
   ClearOnSet = TRUE
   ClearOnDelete = TRUE
   BareKeyShortcut = FALSE
-  Depth = 5
+  Depth = 3
 CONSTRAINT Bound
 VIEW View
 INVARIANT WellFormedMaps
 INVARIANT NeverStale
 INVARIANT MemoCoherent
 INVARIANT FirstOfBest
+INVARIANT ShortcutInsideRule
 PROPERTY MCIndependent
